@@ -161,7 +161,7 @@ var c16Perms = map[string]BlockMangler{
 func TestBounded_C16_BlockEx(t *testing.T) {
 	const test = "TestBounded_C16_BlockEx"
 	sizes := c16Sizes()
-	perms := []string{"none", "identity", "reverse", "rotate", "random"}
+	perms := []string{"none", "identity", "reverse", "rotate", "random", "reverse+nested"}
 	if in, ok := c16Replay(test); ok {
 		sizes, perms = []int{in.N}, []string{in.Perm}
 	} else if os.Getenv("BOUNDED_REPLAY") != "" {
@@ -178,6 +178,41 @@ func TestBounded_C16_BlockEx(t *testing.T) {
 					return "build: " + err.Error()
 				}
 				seen := map[string]int{}
+				if pn == "reverse+nested" {
+					// visitors may call read operations (C18): the visitor of the outer enumeration runs, once,
+					// two complete inner enumerations of the same collection; all three must be exactly-once
+					if n > 64 {
+						return ""
+					}
+					calls, inner := 0, ""
+					err = c.VisitItemsAscendBlockEx(false, c16Perms["reverse"], func(i *Item, depth uint64) bool {
+						seen[string(i.Key)]++
+						calls++
+						if calls == 2 {
+							s1, s2 := map[string]int{}, map[string]int{}
+							e1 := c.VisitItemsAscendBlockEx(false, c16Perms["reverse"], func(j *Item, d uint64) bool { s1[string(j.Key)]++; return true })
+							e2 := c.VisitItemsRandom(func(j *Item, d uint64) bool { s2[string(j.Key)]++; return true })
+							if e1 != nil || e2 != nil {
+								inner = fmt.Sprint("inner enumeration failed: ", e1, e2)
+							} else if w := c16Check(s1, n); w != "" {
+								inner = "inner VisitItemsAscendBlockEx: " + w
+							} else if w := c16Check(s2, n); w != "" {
+								inner = "inner VisitItemsRandom: " + w
+							}
+						}
+						return true
+					})
+					if inner != "" {
+						return inner
+					}
+					if err != nil && n > 0 {
+						return "VisitItemsAscendBlockEx returned an error: " + err.Error()
+					}
+					if w := c16Check(seen, n); w != "" {
+						return "outer enumeration with inner enumerations run from its visitor: " + w
+					}
+					return ""
+				}
 				err = c.VisitItemsAscendBlockEx(false, c16Perms[pn], func(i *Item, depth uint64) bool {
 					seen[string(i.Key)]++
 					return true
